@@ -298,6 +298,38 @@ fn c15_polynomial_algebra() {
             if trim(r.coeffs.clone()).len() >= trim(b.clone()).len() { bad.push(format!("div_rem variant {which}: deg r >= deg b for degrees {da},{db}")); }
         }
     } }
+    // the same polynomials held with trailing zero coefficients (what ifft / padded() / lde() produce): products, quotients and remainders do not depend on the padding
+    for da in 0..9usize { for db in 1..7usize { for (za, zb) in [(1usize, 0usize), (0, 1), (3, 2), (4, 0), (0, 4), (7, 1)] {
+        let a: Vec<F> = (0..da).map(|_| rnd()).collect();
+        let mut b: Vec<F> = (0..db).map(|_| rnd()).collect();
+        if b[db - 1].is_zero() { b[db - 1] = F::ONE; }
+        let mut ap = a.clone(); ap.extend(core::iter::repeat(F::ZERO).take(za));
+        let mut bp = b.clone(); bp.extend(core::iter::repeat(F::ZERO).take(zb));
+        let (pa, pb) = (PolynomialCoeffs::new(ap.clone()), PolynomialCoeffs::new(bp.clone()));
+        let what = format!("degrees {da},{db} with {za},{zb} trailing zero coefficients");
+        cases += 1;
+        match std::panic::catch_unwind(std::panic::AssertUnwindSafe(|| (&pa * &pb).coeffs)) {
+            Err(_) => bad.push(format!("mul PANICKED for {what}")),
+            Ok(m) => if trim(m) != trim(school_mul(&a, &b)) { bad.push(format!("mul differs from schoolbook for {what}")); },
+        }
+        for which in 0..2 {
+            cases += 1;
+            match std::panic::catch_unwind(std::panic::AssertUnwindSafe(|| if which == 0 { pa.div_rem(&pb) } else { pa.div_rem_long_division(&pb) })) {
+                Err(_) => bad.push(format!("div_rem variant {which} PANICKED for {what}")),
+                Ok((q, r)) => {
+                    let mut back = school_mul(&trim(q.coeffs.clone()), &b);
+                    let l = back.len().max(r.coeffs.len()).max(a.len()); back.resize(l, F::ZERO);
+                    for (i, c) in r.coeffs.iter().enumerate() { back[i] += *c; }
+                    if trim(back) != trim(a.clone()) { bad.push(format!("div_rem variant {which}: q*b + r != a for {what}")); }
+                    if trim(r.coeffs.clone()).len() >= db { bad.push(format!("div_rem variant {which}: deg r >= deg b for {what}")); }
+                }
+            }
+        }
+        // evaluation, degree and leading coefficient ignore the padding as well
+        cases += 1;
+        let z = rnd();
+        if pa.eval(z) != PolynomialCoeffs::new(a.clone()).eval(z) || pa.degree_plus_one() != trim(a.clone()).len() || pb.lead() != b[db - 1] { bad.push(format!("eval / degree_plus_one / lead depend on the padding for {what}")); }
+    } } }
     // structured operands: quotients and inverses with zero coefficients (incl. low-order zeros), equal degrees, constants
     let fc = |v: &[i64]| -> Vec<F> { v.iter().map(|&x| F::from_noncanonical_i64(x)).collect() };
     for (a, b) in [(fc(&[0, 1, 1, 1]), fc(&[1, 1, 1])), (fc(&[0, 0, 0, 1]), fc(&[0, 1])), (fc(&[0, 0, 1, 0, 1]), fc(&[1, 0, 1])), (fc(&[5, 0, 0, 0, 0, 0, 0, 0, 1]), fc(&[1, 0, 1])),
